@@ -148,6 +148,8 @@ func c05Ctx(env *c05Env) *plush.Context {
 	ctx.Set("xs", []interface{}{1, 2, 3})
 	ctx.Set("mp", map[string]int{"k": 1})
 	ctx.Set("tt", newT("t"))
+	ptt := newT("pt")
+	ctx.Set("ptt", &ptt)
 	ctx.Set("cap", func(h plush.HelperContext) (template.HTML, error) {
 		s, err := h.Block()
 		return template.HTML(s), err
@@ -194,6 +196,8 @@ var c05Faults = []struct {
 	{"type-mismatch", `(val("p", 1) - "a")`, false},
 	{"bad-argument-type", `ci(val("p", "str"))`, false},
 	{"missing-member", `val("p", tt).Nope`, false},
+	{"missing-method", `val("p", tt).Nope()`, false},
+	{"missing-method-on-pointer", `val("p", ptt).Nope()`, false},
 	{"call-non-function", `two(val("p", 1), 2)()`, false},
 	// errors whose chain contains an unknown-identifier error are still failures
 	{"helper-returns-unknown-identifier-error", `failunk("p")`, true},
